@@ -339,7 +339,7 @@ func propRegistry() map[string]PropSpec {
 			{Pkg: "compress", Fn: "Harness_C16_compress_reset", Init: []string{"util", "compress"}, Reach: []string{"C16.compress.end"}},
 			{Pkg: "server", Fn: "Harness_C16_server_update", Init: initServer, Reach: []string{"C16.server.end"}},
 			{Pkg: "server", Fn: "Harness_C16_servers_reset", Init: initServer, Reach: []string{"C16.servers.end"}, EngineOnly: true},
-			{Pkg: "cache", Fn: "Harness_C16_dispatchers_reset", Init: initCache, Reach: []string{"C16.caches.end"}},
+			{Pkg: "cache", Fn: "Harness_C16_dispatchers_reset", Init: initCache, Reach: []string{"C16.caches.end"}, EngineOnly: true},
 			{Pkg: "upstream", Fn: "Harness_C19_reset", Init: []string{"util", "upstream"}, Reach: []string{"C19.reset.end"}, EngineOnly: true},
 		},
 		Explanation: "Partial: differential symbolic execution per registry. Compress profiles: for two successive symbolic configurations (profile p and bestCompression each present or not, each level set or unset with any int32 value) the levels of every profile a request can resolve equal those of a registry freshly built from the final configuration. Servers: a server updated in place (every option field symbolic, incl. unset) equals NewServer of the same option through GetCache/GetLocations/GetCompress; the server registry after Reset equals a fresh one and removed servers are closed. Caches: surviving dispatchers are the same objects (entries retained), removed ones gone, new ones present.",
